@@ -17,6 +17,7 @@ carries `root.observe …` of a tree `root` with the structure of `base` that is
 Each lemma has the hypothesis `(op m).w.err = none`: the model met no contract violation.
 -/
 import Hfsm.Proofs.RegistrySerial
+import Hfsm.Proofs.ApplyStep
 
 set_option linter.unusedSimpArgs false
 set_option linter.unusedVariables false
@@ -229,6 +230,29 @@ theorem applyRequest_cases (m : Mach U) (t : Transition) (i : Nat) :
       · exact .inr (.inr (.inr ⟨_, _, rfl⟩))
 
 
+/-- … and `applyRequestNoPin` (the same four, with a request that carries no index). -/
+theorem applyRequestNoPin_cases (m : Mach U) (t : Transition) :
+    (∃ p, m.applyRequestNoPin t = { m with root := m.root.schedule p, w := m.w.snapshot m.root true false }) ∨
+    (∃ msg, m.applyRequestNoPin t = { m with w := (m.w.snapshot m.root true false).fail' msg }) ∨
+    (∃ rq, m.applyRequestNoPin t =
+      { m with root := (m.root.request rq (m.w.snapshot m.root true false)).1,
+               w := (m.root.request rq (m.w.snapshot m.root true false)).2 }) ∨
+    (∃ rq p, m.applyRequestNoPin t =
+      { m with root := ((m.root.mark p).1.fwdActive rq (m.w.snapshot m.root true false)).1,
+               w := ((m.root.mark p).1.fwdActive rq (m.w.snapshot m.root true false)).2 }) := by
+  unfold applyRequestNoPin
+  dsimp only
+  split
+  · split
+    · exact .inl ⟨_, rfl⟩
+    · exact .inr (.inl ⟨_, rfl⟩)
+  · split
+    · exact .inr (.inr (.inl ⟨_, rfl⟩))
+    · split
+      · exact .inr (.inl ⟨_, rfl⟩)
+      · exact .inr (.inr (.inr ⟨_, _, rfl⟩))
+
+
 /-- `mark` then `fwdActive` on a live tree -/
 theorem markFwd_live {n : Node} (p : List Nat) (rq : Req) (w : World U) (hl : n.Live)
     (he : ((n.mark p).1.fwdActive rq w).2.err = none) :
@@ -294,6 +318,74 @@ theorem applyRequest_dres {base : Node} {m : Mach U} (t : Transition) (i : Nat) 
   · obtain ⟨hl, hv⟩ := markFwd_dres p rq (m.w.snapshot m.root true false) hi.dres he
     exact ⟨⟨(Node.SameShape.of_view hv).trans hi.shape, hl, hg0.ext (Node.fwdActive_ext _ rq _)⟩,
       Node.view_tff_of_ttf hv⟩
+
+/-! `applyRequestNoPin`: the same, by the same proofs (`applyRequestNoPin_cases`) -/
+
+theorem applyRequestNoPin_errLe (m : Mach U) (t : Transition) : World.ErrLe m.w (m.applyRequestNoPin t).w := by
+  rcases applyRequestNoPin_cases m t with ⟨p, e⟩ | ⟨msg, e⟩ | ⟨rq, e⟩ | ⟨rq, p, e⟩ <;> rw [e] <;> intro h
+  · exact h
+  · exact absurd h (World.fail'_errX _ _)
+  · exact (Node.request_ext m.root rq (m.w.snapshot m.root true false)).err h
+  · exact (Node.fwdActive_ext _ rq (m.w.snapshot m.root true false)).err h
+
+theorem applyRequestNoPin_live {base : Node} {m : Mach U} (t : Transition) (hi : LiveInv base m)
+    (he : (m.applyRequestNoPin t).w.err = none) :
+    LiveInv base (m.applyRequestNoPin t) ∧
+      (m.applyRequestNoPin t).root.view true false false = m.root.view true false false := by
+  have hg0 : (m.w.snapshot m.root true false).Good base := hi.good.snapshot _ _ _ hi.shape (.inl hi.live.act)
+  rcases applyRequestNoPin_cases m t with ⟨p, e⟩ | ⟨msg, e⟩ | ⟨rq, e⟩ | ⟨rq, p, e⟩ <;> rw [e] at he ⊢
+  · have hv := Node.schedule_view true m.root p
+    refine ⟨⟨(Node.SameShape.of_view hv).trans hi.shape, ⟨(Node.act_congr hv).mpr hi.live.act,
+      (Node.cok_congr hv).mpr hi.live.cok, Node.schedule_resumableOK _ p hi.live.rok⟩, hg0⟩,
+      Node.view_tff_of_tft hv⟩
+  · exact absurd he (World.fail'_errX _ _)
+  · have hv := Node.request_view true true m.root rq (m.w.snapshot m.root true false)
+    refine ⟨⟨(Node.SameShape.of_view hv).trans hi.shape,
+      Node.Live.of_view hv hi.live (Node.Res_imp_COK _ (Node.request_res _ rq _ he)),
+      hg0.ext (Node.request_ext _ rq _)⟩, Node.view_tff_of_ttf hv⟩
+  · obtain ⟨hl, hv⟩ := markFwd_live p rq (m.w.snapshot m.root true false) hi.live he
+    exact ⟨⟨(Node.SameShape.of_view hv).trans hi.shape, hl, hg0.ext (Node.fwdActive_ext _ rq _)⟩,
+      Node.view_tff_of_ttf hv⟩
+
+theorem applyRequestNoPin_dres {base : Node} {m : Mach U} (t : Transition) (hi : DResInv base m)
+    (he : (m.applyRequestNoPin t).w.err = none) :
+    DResInv base (m.applyRequestNoPin t) ∧
+      (m.applyRequestNoPin t).root.view true false false = m.root.view true false false := by
+  have hg0 : (m.w.snapshot m.root true false).Good base := hi.good.snapshot _ _ _ hi.shape (.inr hi.dres.clean)
+  rcases applyRequestNoPin_cases m t with ⟨p, e⟩ | ⟨msg, e⟩ | ⟨rq, e⟩ | ⟨rq, p, e⟩ <;> rw [e] at he ⊢
+  · have hv := Node.schedule_view true m.root p
+    refine ⟨⟨(Node.SameShape.of_view hv).trans hi.shape, ⟨(Node.clean_congr hv).mpr hi.dres.clean,
+      (Node.res_congr hv).mpr hi.dres.res, Node.schedule_resumableOK _ p hi.dres.rok⟩, hg0⟩,
+      Node.view_tff_of_tft hv⟩
+  · exact absurd he (World.fail'_errX _ _)
+  · have hv := Node.request_view true true m.root rq (m.w.snapshot m.root true false)
+    refine ⟨⟨(Node.SameShape.of_view hv).trans hi.shape,
+      Node.DRes.of_view hv hi.dres (Node.request_res _ rq _ he),
+      hg0.ext (Node.request_ext _ rq _)⟩, Node.view_tff_of_ttf hv⟩
+  · obtain ⟨hl, hv⟩ := markFwd_dres p rq (m.w.snapshot m.root true false) hi.dres he
+    exact ⟨⟨(Node.SameShape.of_view hv).trans hi.shape, hl, hg0.ext (Node.fwdActive_ext _ rq _)⟩,
+      Node.view_tff_of_ttf hv⟩
+
+/-! one iteration of the loop of `applyRequests` -/
+
+theorem applyStep_errLe (m : Mach U) (x : Transition × Nat) : World.ErrLe m.w (applyStep m x).w := by
+  unfold applyStep; split
+  · exact applyRequest_errLe m x.1 x.2
+  · exact applyRequestNoPin_errLe m x.1
+
+theorem applyStep_live {base : Node} {m : Mach U} (x : Transition × Nat) (hi : LiveInv base m)
+    (he : (applyStep m x).w.err = none) :
+    LiveInv base (applyStep m x) ∧ (applyStep m x).root.view true false false = m.root.view true false false := by
+  unfold applyStep at he ⊢; split at he
+  · next h => rw [if_pos h]; exact applyRequest_live x.1 x.2 hi he
+  · next h => rw [if_neg h]; exact applyRequestNoPin_live x.1 hi he
+
+theorem applyStep_dres {base : Node} {m : Mach U} (x : Transition × Nat) (hi : DResInv base m)
+    (he : (applyStep m x).w.err = none) :
+    DResInv base (applyStep m x) ∧ (applyStep m x).root.view true false false = m.root.view true false false := by
+  unfold applyStep at he ⊢; split at he
+  · next h => rw [if_pos h]; exact applyRequest_dres x.1 x.2 hi he
+  · next h => rw [if_neg h]; exact applyRequestNoPin_dres x.1 hi he
 
 /-! #### a batch -/
 
